@@ -69,7 +69,7 @@ theorem engUnary_iter_safe (st : St) (g : UnF) (tc kt : List String) (strict : B
       let s ← kUnIter s c.win g (a.offsets.map (·, true))
       pure ⟨s, none, .fresh c⟩) := by
   unfold engUnary
-  simp only [hta, hk, hfo_none, hia, itStream_nomask _ _ hma, bind, Except.bind, pure, Except.pure, Bool.not_true,
+  simp only [hta, hk, hfo_none, prepAliasT_none, hia, itStream_nomask _ _ hma, bind, Except.bind, pure, Except.pure, Bool.not_true,
     Bool.false_eq_true, if_false, Bool.or_false, Bool.not_false, if_true, Bool.true_or]
 
 theorem engUnary_iter_unsafe (st : St) (g : UnF) (tc kt : List String) (strict : Bool) (a : Dense)
@@ -79,7 +79,7 @@ theorem engUnary_iter_unsafe (st : St) (g : UnF) (tc kt : List String) (strict :
       let s ← kUnIter st a.win g (a.offsets.map (·, true))
       pure ⟨s, none, .a⟩) := by
   unfold engUnary
-  simp only [hta, hk, hfo_none, hia, itStream_nomask _ _ hma, bind, Except.bind, pure, Except.pure, Bool.not_true,
+  simp only [hta, hk, hfo_none, prepAliasT_none, hia, itStream_nomask _ _ hma, bind, Except.bind, pure, Except.pure, Bool.not_true,
     Bool.false_eq_true, if_false, Bool.or_false, Bool.not_false, if_true, Bool.true_or]
 
 /-- **Unary operation on an operand that needs an iterator, safe mode**: the result is a clone of the operand's storage
